@@ -220,6 +220,8 @@ def histories(max_ticks: int = 40) -> Any:
             "die": st.one_of(st.just([]), st.just([]), st.lists(st.integers(0, W - 1), unique=True, max_size=W).map(sorted)),
             "exit0": st.one_of(st.just([]), st.lists(st.integers(0, W - 1), unique=True, max_size=W).map(sorted)),
             "sig": st.one_of(st.just([]), st.just([]), st.just([]), st.lists(st.sampled_from(["HUP", "FC", "HUP", "FC", "INT", "TERM"]), min_size=1, max_size=3)),
+            # workers that are gone by the time the manager signals them although its is_alive() just said yes
+            "vanish": st.one_of(st.just([]), st.just([]), st.just([]), st.lists(st.integers(0, W - 1), unique=True, max_size=W).map(sorted)),
             "mid": st.one_of(st.just([]), st.just([]), st.just([]),
                              st.lists(st.tuples(st.integers(0, 14), st.sampled_from(["HUP", "FC", "INT", "TERM", "HUP"])).map(list), min_size=1, max_size=2)),
         })
